@@ -396,6 +396,28 @@ inline T bytesSwapped(const T& x)
 	return y;
 }
 
+// Tells if T is a built-in arithmetic type: only arrays of these can be streamed as one block of raw memory
+
+template <class T>
+struct IsArithmetic { enum { value = 0 }; };
+
+#define ASL_ARITHMETIC(T) template <> struct IsArithmetic<T> { enum { value = 1 }; };
+ASL_ARITHMETIC(bool)
+ASL_ARITHMETIC(char)
+ASL_ARITHMETIC(signed char)
+ASL_ARITHMETIC(unsigned char)
+ASL_ARITHMETIC(short)
+ASL_ARITHMETIC(unsigned short)
+ASL_ARITHMETIC(int)
+ASL_ARITHMETIC(unsigned)
+ASL_ARITHMETIC(long)
+ASL_ARITHMETIC(unsigned long)
+ASL_ARITHMETIC(Long)
+ASL_ARITHMETIC(ULong)
+ASL_ARITHMETIC(float)
+ASL_ARITHMETIC(double)
+#undef ASL_ARITHMETIC
+
 #undef min
 #undef max
 
